@@ -4,12 +4,14 @@ import Hv.Generated.FactsC18
 namespace Hv.C18
 
 /-- The kernel-checked decision for the facts extracted from /repo on this run. -/
-theorem verdict : (classify Generated.factsC18).Sound (Holds (cfgOf Generated.factsC18)) :=
+theorem verdict : (classify Generated.factsC18).Sound (HoldsAll (cfgOf Generated.factsC18) (exitOf Generated.factsC18)) :=
   classify_sound _
 
 #eval IO.println (verdictLine "C18" (classify Generated.factsC18))
 #print axioms verdict
 #print axioms summon_mutex
+#print axioms holds_all
+#print axioms refutes_noRecheck
 #print axioms reach_inv
 #print axioms refutes_waiterCount
 #print axioms witness_two_live
